@@ -257,4 +257,18 @@ CONTRACTS = {
     modifies=['self.lecturer_lists'],
     ensures=[('one-list-per-lecturer', 'len(self.lecturer_lists) == self.num_lecturers'),
              ('lecturer-list-holds-exactly-the-pairs-of-that-lecturer', 'forall(k, 0, self.num_lecturers, forall(r, (ref(r) in elems(self.lecturer_lists[k])) == (seen(ref(r), len(self.pairs), 0) and ref(r).lecturer_index == k)))')]),
+
+ # ---- C18: the debug getter is read-only and does not raise
+ P + '__str__': dict(inline=True),
+ M + '_pairs_string': dict(
+    params={'pairs': ('list', ('list', 'ref'))}, pure=True,
+    requires=["forall(i, 0, len(pairs), forall(c, 0, len(pairs[i]), pairs[i][c] != None and has(pairs[i][c], 'studentID') and has(pairs[i][c], 'projectID')"
+              " and has(pairs[i][c], 'rank_student') and has(pairs[i][c], 'lecturerID')))"],
+    loops={0: dict(invariant=[]), 1: dict(invariant=[])},
+    returns=('str', 'pairs')),
+ M + 'get_debug': dict(
+    pure=True, self_fields={'project_closures': None},
+    requires=['sizes_ok(self)', 'pairs_ok(self)'],          # NOT has_vars: after a brute-force solve the pairs carry no LP variable
+    loops={0: dict(invariant=[]), 1: dict(invariant=[]), 2: dict(invariant=[])},
+    returns=('str', 'debug')),
 }
